@@ -17,14 +17,16 @@ Inductive sev := SevFatal | SevTemporary.
 
 (* slice.go: readerFuncSliceReader and writerFuncReader pass a temporary error
    through and wrap every other error as Fatal; scanReader returns the callback's
-   error unchanged (classified fatal by the executors unless marked otherwise);
+   error unchanged (not fatal: the task is lost and resubmitted, a bounded number of times);
    a panic anywhere in user code is recovered by the executor and turned into a
    Fatal error (local: recoverFatal in bufferOutput/depReaders; bigmachine:
    worker.Run's recover); an out-of-range partition index is an index panic in
    the executor's partitioning loop, recovered the same way. *)
 Definition surfaces (s : site) (m : mode) : sev :=
   match m with
-  | MTemp => match s with SReader | SWriter => SevTemporary | _ => SevFatal end
+  | MTemp => match s with SReader | SWriter | SScan => SevTemporary | _ => SevFatal end
+  | MError => match s with SScan => SevTemporary | _ => SevFatal end
+      (* neither executor classifies a scan callback's error as fatal: the task is lost and retried *)
   | _ => SevFatal
   end.
 
@@ -35,7 +37,7 @@ Definition msg_carried (s : site) (m : mode) : bool :=
   match m with
   | MPanic => true
   | MError => match s with SReader | SWriter => true | _ => false end
-  | MTemp => match s with SReader | SWriter => true | _ => false end
+  | MTemp => false  (* a persistent temporary failure ends in "too many tries": the evaluator's error, on every executor *)
   | MBadPart => false
   end.
 
